@@ -195,7 +195,7 @@ Present(pv, g) == g \in DOMAIN pv
 
 RECURSIVE Fill(_, _)
 FillField(r, x) ==
-  IF IsScalar(r) \/ r.mode = "none" THEN x
+  IF IsScalar(r) THEN x
   ELSE IF r.card = "one" THEN Fill(r.type, x)
   ELSE [i \in 1 .. Len(x) |-> Fill(r.type, x[i])]
 ZeroField(r) ==
@@ -369,6 +369,7 @@ JGet(t, name) == LET s == SelectSeq(t.kv, LAMBDA p : p[1] = K(name)) IN IF s = <
 JHas(t, key) == JGet(t, key) # << >>
 
 RECURSIVE JsonOf(_, _)
+RECURSIVE JsonOSM(_)
 JsonField(r, x) ==
   CASE r.jmode = "tags" -> [j |-> "map", kv |-> ([i \in 1 .. Len(x) |-> <<Fill("Tag", x[i]).Key, JLit("str", Fill("Tag", x[i]).Value)>>])]     \* "map": every member is data (no unknown keys can be added)
     [] r.jmode = "ids"  -> JArr([i \in 1 .. Len(x) |-> JLit("int", IF Present(x[i], "ID") THEN x[i].ID ELSE "i0")])
@@ -377,7 +378,14 @@ JsonField(r, x) ==
     [] r.card = "opt"  -> JsonOf(r.type, x[1])
     [] OTHER -> JArr([i \in 1 .. Len(x) |-> JsonOf(r.type, x[i])])
 \* the JSON object an independent writer produces for a partial value: exactly the present fields (an absent optional => no key)
+\* an OSM value nested in another JSON value (Changeset.Change.Create ...): header keys + elements, kinds in table order
+JsonOSM(pv) ==
+  LET hr == SelectSeq(Rows("OSM"), LAMBDA r : r.mode = "attr" /\ Present(pv, r.go))
+      er == SelectSeq(Rows("OSM"), LAMBDA r : r.mode = "elem" /\ r.card = "many" /\ Present(pv, r.go))
+  IN JObj([i \in 1 .. Len(hr) |-> <<K(hr[i].json), JLit("str", pv[hr[i].go])>>]
+          \o << <<K("elements"), JArr(Cat([i \in 1 .. Len(er) |-> [j \in 1 .. Len(pv[er[i].go]) |-> JsonOf(er[i].type, pv[er[i].go][j])]]))>> >>)
 JsonOf(T, pv) ==
+  IF T = "OSM" THEN JsonOSM(pv) ELSE
   LET jr == SelectSeq(Rows(T), LAMBDA r : r.jmode # "none" /\ Present(pv, r.go) /\ (r.card # "opt" \/ pv[r.go] # << >>))
   IN JObj((IF T \in DOMAIN JsonType THEN << <<K("type"), [j |-> "str", v |-> JsonType[T]]>> >> ELSE << >>)
           \o [i \in 1 .. Len(jr) |-> <<K(jr[i].json), JsonField(jr[i], pv[jr[i].go])>>])
